@@ -15,7 +15,9 @@ import (
 	"go/parser"
 	"go/token"
 	"go/types"
+	"strconv"
 	"strings"
+	"unicode/utf8"
 
 	"github.com/mmcloughlin/avo/buildtags"
 	"github.com/mmcloughlin/avo/ir"
@@ -129,6 +131,8 @@ type G[X any] struct{ v X }
 
 type I interface{ M(x int) error }
 
+type Ünï uint32
+
 var _ unsafe.Pointer
 
 var _ q.D
@@ -219,33 +223,105 @@ type c12Gen struct {
 	r       *rng
 	st      map[string]int
 	foreign bool // types of other packages allowed (finding C12-missing-import)
+	vet     bool // the signatures go through vet's asmdecl: no letters U+0080..U+00FE in names (see signature)
+}
+
+// c12TagAtoms: pieces of struct field tags. A tag is an arbitrary Go string: every character that is
+// special to SOME layer between avo's caller and the stub file must be sampled — fmt verbs, the quoting
+// characters of both literal forms, comment markers, escapes, layout characters, non-ASCII text, bytes
+// that are not UTF-8.
+var c12TagAtoms = []string{
+	"%", "%s", "%08x", "%d", "%v", "%%", "%!", "%[1]d", "%*d", "%!x(MISSING)", "100%", "%2F",
+	"\\", "\"", "`", "'", "\\n", "\\\"", "//", "/*", "*/", "\n", "\t", "\r", " ", ";", ",", "{", "}", "(", ")", ":",
+	"é", "·", "世界", "\u00a0", "\u2028", "\x00", "\x7f", "\xff", "\xc3", "\U0001F600", "\ufeff",
+	"json", "key", "a", "x", "0", "-", "omitempty", "func", "struct{", "=",
+	// (weights) the quoting characters and comment markers again
+	"`", "a`b", "``", "//", "/*", "// x", "/*y*/", "\\", "\"", "%s`", "%d//", "\\%",
+}
+
+var c12TagKeys = []string{"json", "fmt", "dump", "xml", "avo", "k·"}
+
+// c12RawOK: can the string be written as a raw (backquoted) literal in a source file.
+func c12RawOK(v string) bool {
+	return utf8.ValidString(v) && !strings.ContainsAny(v, "`\r\x00\ufeff")
+}
+
+// tagValue is the tag as a string VALUE.
+func (g *c12Gen) tagValue() string {
+	r := g.r
+	switch r.intn(10) {
+	case 0, 1:
+		return "json:\"x\""
+	case 2, 3, 4:
+		// conventional key:"value" shape with a value from the alphabet
+		v := ""
+		for k := r.rangeIn(1, 3); k > 0; k-- {
+			v += pick(r, c12TagAtoms)
+		}
+		return pick(r, c12TagKeys) + ":" + strconv.Quote(v)
+	case 5:
+		return ""
+	default:
+		v := ""
+		for k := r.rangeIn(1, 4); k > 0; k-- {
+			v += pick(r, c12TagAtoms)
+		}
+		return v
+	}
+}
+
+// tag is the tag as Go source: a raw literal where possible (half of the time), an interpreted one otherwise.
+func (g *c12Gen) tag() string {
+	v := g.tagValue()
+	g.st["tag"]++
+	if strings.Contains(v, "%") {
+		g.st["tag_percent"]++
+	}
+	if c12RawOK(v) && g.r.chance(1, 2) {
+		g.st["tag_raw_literal"]++
+		return "`" + v + "`"
+	}
+	return strconv.Quote(v)
 }
 
 func (g *c12Gen) fields(depth int) string {
 	n := g.r.intn(4)
 	var fs []string
 	names := []string{"a", "b", "C", "d", "e"}
+	if g.r.chance(1, 6) {
+		names = []string{"é", "β2", "Ĉ", "d_ö", "世"}
+		if g.vet {
+			names = []string{"ā", "β2", "Ĉ", "d_ж", "世"}
+		}
+		g.st["field_nonascii"]++
+	}
+	opt := func() string { // an optional tag on ANY kind of field
+		if g.r.chance(1, 4) {
+			return " " + g.tag()
+		}
+		return ""
+	}
 	for i := 0; i < n; i++ {
 		switch g.r.intn(8) {
 		case 0:
-			fs = append(fs, "_ "+g.typ(depth+1))
+			fs = append(fs, "_ "+g.typ(depth+1)+opt())
 		case 1:
 			if i+1 < len(names)-1 {
-				fs = append(fs, names[i]+"x, "+names[i]+"y "+g.typ(depth+1))
+				fs = append(fs, names[i]+"x, "+names[i]+"y "+g.typ(depth+1)+opt())
 				continue
 			}
 			fallthrough
 		case 2:
-			fs = append(fs, names[i]+" "+g.typ(depth+1)+" `json:\"x\"`")
+			fs = append(fs, names[i]+" "+g.typ(depth+1)+" "+g.tag())
 		case 3:
 			if i == 0 {
 				g.st["type_embedded"]++
-				fs = append(fs, pick(g.r, []string{"T", "*T", "U", "error", "G[int8]"}))
+				fs = append(fs, pick(g.r, []string{"T", "*T", "U", "error", "G[int8]", "Ünï"})+opt())
 				continue
 			}
 			fallthrough
 		default:
-			fs = append(fs, names[i]+" "+g.typ(depth+1))
+			fs = append(fs, names[i]+" "+g.typ(depth+1)+opt())
 		}
 	}
 	return strings.Join(fs, "; ")
@@ -263,7 +339,7 @@ func (g *c12Gen) typ(depth int) string {
 		return pick(r, c12Basics)
 	case k < 11:
 		st["type_named"]++
-		return pick(r, []string{"T", "U", "V", "P", "A", "AT", "G[int32]", "G[T]", "I"})
+		return pick(r, []string{"T", "U", "V", "P", "A", "AT", "G[int32]", "G[T]", "I", "Ünï", "G[Ünï]"})
 	case k < 13:
 		st["type_pointer"]++
 		return "*" + g.typ(depth+1)
@@ -281,9 +357,23 @@ func (g *c12Gen) typ(depth int) string {
 		return pick(r, []string{"interface{}", "interface{ M(x int) }", "interface{ M(x int); N() (a, b string) }", "interface{ error; Is(error) bool }", "interface{ I }", "interface{ m(...T) }"})
 	case k < 21:
 		st["type_func"]++
+		if r.chance(1, 3) {
+			// generated components: literal types (and their tags) inside func types
+			return "func(" + pick(r, []string{"", "k ", "_ "}) + g.typ(depth+1) + ") " + g.typ(depth+1)
+		}
 		return pick(r, []string{"func(int) (int, error)", "func()", "func(...int)", "func(x, y T) (ok bool)", "func(struct{ a int }) []U", "func(func(int)) func() T"})
 	case k < 22:
 		st["type_chan_map"]++
+		if r.chance(1, 3) {
+			switch r.intn(3) {
+			case 0:
+				return "map[" + pick(r, []string{"string", "uint8", "[2]int32", "T", "Ünï", "struct{ k int8 " + g.tag() + " }"}) + "]" + g.typ(depth+1)
+			case 1:
+				return "chan " + g.typ(depth+1)
+			default:
+				return "<-chan " + g.typ(depth+1)
+			}
+		}
 		return pick(r, []string{"map[string]int", "chan int", "<-chan uint8", "chan<- T", "chan (<-chan int)", "map[T][]U", "map[[2]int]struct{}", "chan struct{ a, b int }"})
 	default:
 		if g.foreign && r.chance(1, 3) {
@@ -295,13 +385,25 @@ func (g *c12Gen) typ(depth int) string {
 	}
 }
 
-var c12StorableResults = []string{"uint64", "int32", "bool", "float64", "float32", "*byte", "uint8", "int16", "uintptr", "[]byte", "string", "[2]uint32", "struct{a uint16; b uint64}", "complex128", "T", "V", "*T", "[]T", "A", "U", "G[uint32]", "struct{ T; n int8 }"}
+var c12StorableResults = []string{"uint64", "int32", "bool", "float64", "float32", "*byte", "uint8", "int16", "uintptr", "[]byte", "string", "[2]uint32", "struct{a uint16; b uint64}", "complex128", "T", "V", "*T", "[]T", "A", "U", "G[uint32]", "struct{ T; n int8 }", "Ünï", "struct{lo uint32 `fmt:\"%08x\"`; hi uint32 \"%d`\\\\\"}"}
 
 // signature returns a Go signature expression.
 func (g *c12Gen) signature(storableResults bool) string {
 	r, st := g.r, g.st
 	np := r.intn(5)
 	mode := r.intn(3) // 0 unnamed, 1 named, 2 named with blanks
+	pn, qn, rn := "p", "q", "r"
+	if r.chance(1, 6) {
+		pn, qn, rn = pick(r, []string{"π", "ñ", "x_é", "Δ"}), "ǫ", pick(r, []string{"ρ", "résultat", "ж"})
+		if storableResults {
+			// built pairs go through vet's asmdecl, whose own lexer for `name+off(FP)` knows the letters
+			// [A-Za-z0-9_] and U+00FF.. only (its regexp range starts at \xFF): the assembler accepts
+			// `ñ0+0(FP)`, vet reads it as `0+0(FP)`. Not avo's to repair: Latin-1 letters are sampled in the
+			// type-checked part only.
+			pn, rn = pick(r, []string{"π", "Δ", "x_ж"}), pick(r, []string{"ρ", "ж"})
+		}
+		st["sig_names_nonascii"]++
+	}
 	var ps []string
 	for i := 0; i < np; i++ {
 		t := g.typ(0)
@@ -314,15 +416,15 @@ func (g *c12Gen) signature(storableResults bool) string {
 			ps = append(ps, t)
 		case 1:
 			if i+1 < np && r.chance(1, 4) && !strings.HasPrefix(t, "...") {
-				ps = append(ps, fmt.Sprintf("p%d, q%d %s", i, i, t))
+				ps = append(ps, fmt.Sprintf("%s%d, %s%d %s", pn, i, qn, i, t))
 			} else {
-				ps = append(ps, fmt.Sprintf("p%d %s", i, t))
+				ps = append(ps, fmt.Sprintf("%s%d %s", pn, i, t))
 			}
 		default:
 			if r.chance(1, 2) {
 				ps = append(ps, "_ "+t)
 			} else {
-				ps = append(ps, fmt.Sprintf("p%d %s", i, t))
+				ps = append(ps, fmt.Sprintf("%s%d %s", pn, i, t))
 			}
 		}
 	}
@@ -340,12 +442,12 @@ func (g *c12Gen) signature(storableResults bool) string {
 		case 0:
 			rs = append(rs, t)
 		case 1:
-			rs = append(rs, fmt.Sprintf("r%d %s", i, t))
+			rs = append(rs, fmt.Sprintf("%s%d %s", rn, i, t))
 		default:
 			if r.chance(1, 2) {
 				rs = append(rs, "_ "+t)
 			} else {
-				rs = append(rs, fmt.Sprintf("r%d %s", i, t))
+				rs = append(rs, fmt.Sprintf("%s%d %s", rn, i, t))
 			}
 		}
 	}
@@ -362,9 +464,22 @@ func (g *c12Gen) signature(storableResults bool) string {
 
 var c12FnNames = []string{"f", "Add", "sum_avx2", "Σ", "mul", "X", "dot_product", "_priv", "αβγ", "F2", "Use"}
 var c12DocPool = []string{"f does things.", "", "100% of %d", "  indented code", "trailing  ", "# Heading", " - item", "Deprecated: no.", "café", "//go:nosplit", "go:build x", "%s %v %", "a\tb", "1. first", "[Link]: https://x.y", "* star", "\tx := 1", "nbsp\u00a0", "zwsp\u200b", "em\u2003", "nel\u0085", "//", "// nested", "/* block */", "func g()", "package q"}
-var c12ConsPool = []string{"amd64", "linux", "!purego", "amd64,!appengine", "linux darwin", "!amd64,!arm64 gc", "go1.18", "amd64,gc,!purego linux,!cgo", "arm64", "!windows", "cgo", "amd64 arm64,!noasm", "go1.21,!go1.30", "linux,amd64 darwin,amd64 !cgo", "a_b.c", "x", "!x,!y,!z"}
+var c12ConsPool = []string{"amd64", "linux", "!purego", "amd64,!appengine", "linux darwin", "!amd64,!arm64 gc", "go1.18", "amd64,gc,!purego linux,!cgo", "arm64", "!windows", "cgo", "amd64 arm64,!noasm", "go1.21,!go1.30", "linux,amd64 darwin,amd64 !cgo", "a_b.c", "x", "!x,!y,!z", "ünï", "amd64,!ünï β"}
 var c12BuildConsPool = []string{"amd64", "linux", "!purego", "amd64,!appengine", "linux darwin", "!amd64,!arm64 gc", "go1.18", "amd64,gc,!purego linux,!cgo", "arm64", "!windows", "amd64 arm64,!noasm", "windows", "!linux"}
 var c12Argvs = [][]string{{"go", "run", "asm.go", "-out", "x.s", "-stubs", "stub.go"}, {}, {"./gen"}, {"a b", "100%", "-pkg=p"}, {"go", "run", ".", "-stubs", "stub_amd64.go", "trailing "}}
+
+// c12WordAtoms: words of doc lines, pragma arguments, tool names and argv over the alphabet: fmt verbs,
+// quoting characters, escapes, comment markers, non-ASCII text (no white space inside a word).
+var c12WordAtoms = []string{"%", "%d", "%s", "%v", "%%", "%!", "%08x", "100%", "%!s(MISSING)", "%[2]d", "\\", "\\n", "\"q\"", "`", "`raw`", "it's",
+	"/*", "*/", "//", "·", "世界", "é", "<b>", "&amp;", "$x", "{}", "a.b", "x=1", "runtime·f", "\\x00", "f(x)", ";", "word", "Ünï"}
+
+func (g *c12Gen) words(lo, hi int) []string {
+	var ws []string
+	for k := g.r.rangeIn(lo, hi); k > 0; k-- {
+		ws = append(ws, pick(g.r, c12WordAtoms))
+	}
+	return ws
+}
 
 // Witnesses of the listed findings.
 const c12DocNewline = "x\nfunc zz()"
@@ -373,13 +488,17 @@ const c12DocPlusBuild = "+build linux"
 
 func (g *c12Gen) desc(forBuild bool) c12Desc {
 	r, st := g.r, g.st
-	d := c12Desc{Tool: pick(r, []string{"avo", "gen", "my tool", "100%"}), Pkg: pick(r, []string{"p", "mypkg", "x_y", "asm"})}
+	d := c12Desc{Tool: pick(r, []string{"avo", "gen", "my tool", "100%", "t\"q\"`", "é·世", "a\\b%s", "/*x*/ //y", "%d%v%!"}), Pkg: pick(r, []string{"p", "mypkg", "x_y", "asm", "π", "pkgé", "_p9"})}
 	foreign := g.foreign
 	g.foreign = foreign && r.chance(1, 12)
 	defer func() { g.foreign = foreign }()
 	if r.chance(1, 3) {
 		d.HasArgv = true
 		d.Argv = pick(r, c12Argvs)
+		if r.chance(1, 3) {
+			d.Argv = append([]string{"go", "run", "asm.go"}, g.words(1, 3)...)
+			st["argv_words"]++
+		}
 	}
 	if !forBuild && r.chance(1, 40) {
 		d.Pkg = pick(r, []string{"", "9p", "a b"}) // invalid package clause: the printer must report an error
@@ -438,6 +557,10 @@ func (g *c12Gen) desc(forBuild bool) c12Desc {
 			for j := r.rangeIn(1, 4); j > 0; j-- {
 				fn.Doc = append(fn.Doc, pick(r, c12DocPool))
 			}
+			if r.chance(1, 3) {
+				fn.Doc = append(fn.Doc, fn.Name+" "+strings.Join(g.words(1, 4), " "))
+				st["doc_words"]++
+			}
 			if !forBuild && r.chance(1, 80) {
 				st["doc_plusbuild"]++
 				fn.Doc = append(fn.Doc, pick(r, []string{c12DocPlusBuild, "+build ignore", "+build"}))
@@ -457,6 +580,11 @@ func (g *c12Gen) desc(forBuild bool) c12Desc {
 			}
 			if !forBuild && r.chance(1, 8) {
 				fn.Pragmas = append(fn.Pragmas, []string{"wasmimport", "env", "f  x"})
+			}
+			if !forBuild && r.chance(1, 3) {
+				// directive arguments over the alphabet
+				fn.Pragmas = append(fn.Pragmas, append([]string{pick(r, []string{"linkname", "wasmimport", "cgo_import_dynamic", "x9"})}, g.words(1, 3)...))
+				st["pragma_words"]++
 			}
 		}
 		d.Fns = append(d.Fns, fn)
